@@ -798,6 +798,29 @@ impl Kanata {
         Ok(ms_elapsed as u16)
     }
 
+    /// Verification hook: runs one iteration of the time handling of the processing loop
+    /// (`handle_time_ticks`: wall clock to ticks, deferred live reload).
+    #[cfg(kanata_verif)]
+    pub fn verif_handle_time_ticks(&mut self, tx: &Option<Sender<ServerMessage>>) -> Result<u16> {
+        self.handle_time_ticks(tx)
+    }
+
+    /// Verification hook: pretends that exactly `ms` milliseconds have passed since the last
+    /// iteration of the processing loop.
+    #[cfg(kanata_verif)]
+    pub fn verif_set_elapsed_ms(&mut self, ms: u64) {
+        self.time_remainder = 0;
+        self.last_tick = instant::Instant::now()
+            .checked_sub(std::time::Duration::from_millis(ms))
+            .expect("instant in range");
+    }
+
+    /// Verification hook: whether a live reload has been requested and not yet carried out.
+    #[cfg(kanata_verif)]
+    pub fn verif_live_reload_requested(&self) -> bool {
+        self.live_reload_requested
+    }
+
     pub fn tick_ms(&mut self, ms_elapsed: u128, _tx: &Option<Sender<ServerMessage>>) -> Result<()> {
         let mut extra_ticks: u16 = 0;
         for _ in 0..ms_elapsed {
